@@ -327,4 +327,6 @@ def obligations(tier):
         if getattr(o, "npts", None) == 2 and getattr(o, "independent", False):
             o.id = o.id.replace('C05.schema', 'C06.batch')
             obs.append(o)
+    from .C03 import GenEOSWrapper
+    obs.append(GenEOSWrapper("C06", repeat=True))      # general-EOS Riemann wrapper: result independent of an earlier call at another time
     return obs
